@@ -1,7 +1,7 @@
 (* C16 — returned schedules fit the accelerator template.
    Only theorem statements closed by `exact`/1-line combinations, each followed by Print Assumptions. *)
 From Snax Require Import Base.Prelude Model.C03Schedule Model.C03Yields Model.C16Matcher Model.C16Fits
-  Proofs.C03ScheduleProofs Proofs.C03BacktrackProofs Proofs.C16MatcherProofs Proofs.C16FitsProofs Proofs.C16ChecksProofs Proofs.C16ElimProofs.
+  Proofs.C03ScheduleProofs Proofs.C03BacktrackProofs Proofs.C16MatcherProofs Proofs.C16FitsProofs Proofs.C16ChecksProofs Proofs.C16ElimProofs Proofs.C16CompleteProofs.
 
 (* FULL STATEMENT (refuted, finding F12):
      forall r yielded by scheduler_backtrack(T, s, 1, checks), fitsb matcher checks T r = true.
@@ -81,13 +81,25 @@ Theorem C16_row_in_span_iff :
 Proof. exact row_in_span_iff. Qed.
 Print Assumptions C16_row_in_span_iff.
 
-(* COMPLETENESS of rowspace_eqb (every pair with equal row spaces is accepted, i.e. a row of the span is always
-   reduced to zero) is NOT proved in general (it needs the echelon/triangularity argument over Q); it rests on the
-   L1 agreement with the SVD implementation.  Proved instance: the zero space. *)
-Theorem C16_rowspace_complete_partial :
-  forall a, vzerob a = true -> row_in_span [] a = true.
-Proof. exact row_in_span_nil_zero. Qed.
-Print Assumptions C16_rowspace_complete_partial.
+(* COMPLETENESS: a row that is a rational combination of the rows of B is always reduced to zero by the
+   elimination (echelon invariant of the basis + triangularity), hence accepted. *)
+Theorem C16_row_in_span_complete :
+  forall B n, Forall (fun r => length r = n) B -> forall a, length a = n -> span_cert B a -> row_in_span B a = true.
+Proof. exact row_in_span_complete. Qed.
+Print Assumptions C16_row_in_span_complete.
+
+(* The matcher's comparison accepts EXACTLY the pairs of matrices with the same rational row space. *)
+Theorem C16_rowspace_eqb_iff :
+  forall A B n, Forall (fun r => length r = n) A -> Forall (fun r => length r = n) B ->
+    (rowspace_eqb A B = true <-> Forall (span_cert B) A /\ Forall (span_cert A) B).
+Proof. exact rowspace_eqb_iff. Qed.
+Print Assumptions C16_rowspace_eqb_iff.
+
+Example C16_rowspace_nonvacuous :
+  rowspace_eqb [[1; 0; 0]; [0; 1; 0]] [[1; 1; 0]; [1; -1; 0]; [2; 0; 0]] = true /\
+  rowspace_eqb [[1; 0; 0]; [0; 1; 0]] [[1; 1; 0]; [1; -1; 1]] = false.
+Proof. vm_compute. auto. Qed.
+Print Assumptions C16_rowspace_nonvacuous.
 
 (* What the requested checks decide.  Pure output stationarity: among the dims outside the template, the
    columns that are nonzero in the output (last) operand all come before the all-zero (reduction) columns. *)
